@@ -1041,6 +1041,36 @@ def run (undo : Bool) (prod : Product) (style : Style) : Obs :=
 /-- the code as it is -/
 def runCurrent (prod : Product) (style : Style) : Obs := run true prod style
 
+/-! ### Round 5: WHICH exception the attribute assignment raises
+
+`mock_fn.asynq = ...` runs the product's own `__setattr__`, so the exception is the product's choice: AttributeError
+(`__slots__`, a bound method, a `spec_set` mock), TypeError (an extension type) - the two `_maybe_wrap_new` names - but
+just as well ValueError (a validated model that rejects undeclared fields), a KeyError / RuntimeError, an exception
+that is falsy, or one that is not an `Exception` at all.  The `except` clause of `_PatchAsync.__enter__` is a set of
+classes (`catches`); mock_.py today: `except BaseException` = `catchAll`. -/
+
+inductive ExcClass where
+  | attributeError | typeError | attrSub | valueError | lookupSub | runtimeError | falsyExc | baseOnly
+  deriving Repr, DecidableEq, Inhabited
+
+/-- `except BaseException:` (mock_.py today) -/
+def catchAll : ExcClass → Bool := fun _ => true
+
+/-- `except (AttributeError, TypeError):` - the two classes `_maybe_wrap_new` documents -/
+def catchDocumented : ExcClass → Bool
+  | .attributeError | .typeError | .attrSub => true
+  | _ => false
+
+/-- `except Exception:` -/
+def catchException : ExcClass → Bool
+  | .baseOnly => false
+  | _ => true
+
+/-- one activation when the product's `__setattr__` raises an exception of class `exc` and the `except` clause of
+    `_PatchAsync.__enter__` catches the classes `catches`: the undo runs iff the clause catches that class -/
+def runWith (catches : ExcClass → Bool) (prod : Product) (exc : ExcClass) (style : Style) : Obs :=
+  run (catches exc) prod style
+
 /-- C19 for this family: a patch that was active had the product in place, and when the statement is over - however
     it ended, also by an exception out of `__enter__` - the original is back -/
 def spec (o : Obs) : Bool :=
